@@ -212,7 +212,13 @@ pub fn run_c07_c18(seed: u64, runno: u64, tag: &str, c07: bool, c18: bool, depth
     let mut acc = Acc::new();
     let z = ZobristHasher::create_zobrist_hasher();
     let game = gen_root(&mut rng);
+    let t0 = std::time::Instant::now();
     enumerate(&game, depth, full_limit, c07, c18, &mut acc, runno, &z, &mut rng, None);
+    let ms = t0.elapsed().as_millis() as u64;
+    acc.max("wall_ms_of_the_slowest_position", ms);
+    if ms > 5_000 && std::env::var("VERIF_DEBUG_SLOW").is_ok() {
+        eprintln!("slow position ({} ms, depth {}, tag {}): {} moves {:?}", ms, depth, tag, game.start.fen(), game.moves_text());
+    }
     acc
 }
 
@@ -224,7 +230,9 @@ pub fn enumerate(game: &Game, depth: u32, full_limit: u64, c07: bool, c18: bool,
         None => return,
     };
     let before = sb::table_counts(&table);
-    let refr = sb::run_search(&b, &table, u64::MAX, Some(depth + 1), NODE_CAP);
+    // deep iterations are dear: a tighter node cap keeps one heavy position from dominating
+    let node_cap = if depth >= 4 { 150_000 } else { NODE_CAP };
+    let refr = sb::run_search(&b, &table, u64::MAX, Some(depth + 1), node_cap);
     if refr.panicked.is_some() {
         if c07 {
             acc.violate(Violation { prop: "C07".into(), sig: "C07/panic/reference-run".into(), detail: format!("the search panicked with an unlimited clock: {:?} [root {}]", refr.panicked, root.fen()), scenario: scenario(game, None, depth, "C07"), run: runno });
@@ -242,7 +250,7 @@ pub fn enumerate(game: &Game, depth: u32, full_limit: u64, c07: bool, c18: bool,
     if c07 && only_k.is_none() {
         const HUGE: &[u128] = &[(1u128 << 63) - 1, 1u128 << 63, (1u128 << 64) + 1234, 1u128 << 100, u128::MAX, 20_000_000];
         let a = HUGE[(runno % HUGE.len() as u64) as usize];
-        let big = sb::run_search_with_allowance(&b, &table, u64::MAX, Some(depth + 1), NODE_CAP, a);
+        let big = sb::run_search_with_allowance(&b, &table, u64::MAX, Some(depth + 1), node_cap, a);
         acc.evals += 1;
         acc.count("c07_runs_with_huge_allowance");
         let x: Vec<&str> = big.lines.iter().map(|(_, l)| sb::strip_time(l)).collect();
@@ -270,8 +278,16 @@ pub fn enumerate(game: &Game, depth: u32, full_limit: u64, c07: bool, c18: bool,
         }
     }
     let ph = root.canon_hash();
+    let mut work: u64 = 0;
     for k in ks {
-        let run = sb::run_search(&b, &table, k, Some(depth + 1), NODE_CAP);
+        if work > 15_000_000 {
+            // a work budget per position: quiescence-heavy roots (walls of pawns) must not
+            // dominate a batch; the remaining expiry points of this position are skipped
+            acc.count("positions_truncated_by_work_budget");
+            break;
+        }
+        let run = sb::run_search(&b, &table, k, Some(depth + 1), node_cap);
+        work += run.nodes;
         acc.evals += 1;
         acc.count("fault_fired:expire_at_query");
         if k >= 1 && k < refr.queries {
